@@ -62,11 +62,13 @@ pub enum BK {
     RegEnd { key: usize },
     UpdBegin { key: usize, op: &'static str, v: f64, n: u64 },
     UpdEnd { key: usize, op: &'static str, v: f64, n: u64 },
-    DescBegin { name: String },
-    DescEnd { name: String },
+    DescBegin { name: String, unit: String },
+    DescEnd { name: String, unit: String },
     ReadBegin { rid: u64, wall_ns: i64 },
     ReadEnd { rid: u64, out: Readout },
     Note(&'static str),
+    /// the shutdown handle given to the reporter was dropped when `at_drop` readouts had been appended; `total` were appended in all
+    ShutdownProbe { at_drop: u64, total: u64 },
 }
 
 #[derive(Clone, Debug)]
@@ -221,18 +223,20 @@ fn register(rec: &Rec, spec: &KeySpec) -> Handle {
     }
 }
 
-fn describe(rec: &Rec, log: &BLog, plan: &Value, name: &str) {
+/// `which`: 1 = the first description of the name (plan key "units"), 2 = a later re-description
+/// with another unit (plan key "units2"): the latest description is the one that counts.
+fn describe(rec: &Rec, log: &BLog, plan: &Value, name: &str, which: u64) {
     let kinds: Vec<String> = keys_of(plan).into_iter().filter(|k| k.name == name).map(|k| k.kind).collect();
-    let unit_name = plan.get("units").and_then(|u| u.get(name)).and_then(|x| x.as_str()).unwrap_or("none").to_string();
+    let unit_name = plan.get(if which == 2 { "units2" } else { "units" }).and_then(|u| u.get(name)).and_then(|x| x.as_str()).unwrap_or("none").to_string();
     let unit = metrics_unit(&unit_name);
-    log.log(BK::DescBegin { name: name.to_string() });
+    log.log(BK::DescBegin { name: name.to_string(), unit: unit_name.clone() });
     let kn = KeyName::from(name.to_string());
     match kinds.first().map(|s| s.as_str()) {
         Some("c") => rec.describe_counter(kn, unit, "a counter".into()),
         Some("h") => rec.describe_histogram(kn, unit, "a histogram".into()),
         _ => rec.describe_gauge(kn, unit, "a gauge".into()),
     }
-    log.log(BK::DescEnd { name: name.to_string() });
+    log.log(BK::DescEnd { name: name.to_string(), unit: unit_name });
 }
 
 /// metrics-util's registry holds a shard lock (a plain std RwLock, no seam) for the whole of
@@ -256,7 +260,7 @@ fn updater(rec: Rec, log: BLog, plan: Value, ops: Vec<Value>, gate: RegistryGate
         match name {
             "yield" => detsim::yield_point(),
             "sleep" => detsim::sleep_ns(ju(op, "ns", 0)),
-            "describe" => describe(&rec, &log, &plan, js(op, "name", "")),
+            "describe" => describe(&rec, &log, &plan, js(op, "name", ""), ju(op, "which", 1)),
             "register" | "inc" | "set" | "ginc" | "gdec" | "rec" | "recm" => {
                 let ki = ju(op, "key", 0) as usize;
                 let Some(spec) = keys.get(ki) else { continue };
@@ -324,7 +328,7 @@ fn bridge_main(plan: &Value, log: BLog) {
     let rec: Rec = MetricRecorder::new_with_emit_zero_counters(jb(plan, "emit_zero", false));
     for d in ja(plan, "describe_first") {
         if let Some(n) = d.as_str() {
-            describe(&rec, &log, plan, n);
+            describe(&rec, &log, plan, n, 1);
         }
     }
     let gate = RegistryGate::default();
@@ -437,22 +441,31 @@ pub fn check_c20(plan: &Value, h: &[BEv]) -> Option<Violation> {
                 return Some(Violation::new("wrong_observation_shape", format!("readout {}: {:?} (kind {}) written as {:?}", r.rid, m.name, keys[ki].kind, m.obs)));
             }
             // unit
-            let described_as = plan.get("units").and_then(|u| u.get(&m.name)).and_then(|x| x.as_str());
-            let dbeg = h.iter().find(|e| matches!(&e.k, BK::DescBegin { name } if *name == m.name)).map(|e| e.seq);
-            let dend = h.iter().find(|e| matches!(&e.k, BK::DescEnd { name } if *name == m.name)).map(|e| e.seq);
-            let want_desc = expected_unit_name(described_as.unwrap_or("none"));
-            let mut allowed: Vec<&str> = vec![];
-            match (dbeg, dend) {
-                (Some(b), _) if b > r.ret => allowed.push("None"),
-                (Some(_), Some(e)) if e < r.inv => allowed.push(want_desc),
-                (Some(_), _) => {
-                    allowed.push("None");
-                    allowed.push(want_desc);
+            // the descriptions of this name, in time order (they are issued in one program order):
+            // the latest one completed before the readout began counts; one that overlaps the
+            // readout may or may not be seen
+            let mut descs: Vec<(u64, u64, &str)> = vec![]; // (begin, end, unit)
+            for e in h {
+                match &e.k {
+                    BK::DescBegin { name, unit } if *name == m.name => descs.push((e.seq, u64::MAX, expected_unit_name(unit))),
+                    BK::DescEnd { name, .. } if *name == m.name => {
+                        if let Some(d) = descs.iter_mut().rev().find(|d| d.1 == u64::MAX) {
+                            d.1 = e.seq;
+                        }
+                    }
+                    _ => {}
                 }
-                (None, _) => allowed.push("None"),
+            }
+            let mut allowed: Vec<&str> = vec![];
+            match descs.iter().filter(|d| d.1 < r.inv).last() {
+                Some(d) => allowed.push(d.2),
+                None => allowed.push("None"),
+            }
+            for d in descs.iter().filter(|d| d.0 < r.ret && d.1 >= r.inv) {
+                allowed.push(d.2);
             }
             if !allowed.contains(&m.unit.as_str()) {
-                return Some(Violation::new("wrong_unit", format!("readout {}: {:?} written with unit {:?}; allowed {:?} (described as {:?})", r.rid, m.name, m.unit, allowed, described_as)));
+                return Some(Violation::new("wrong_unit", format!("readout {}: {:?} written with unit {:?}; allowed {:?} (descriptions, in order: {:?})", r.rid, m.name, m.unit, allowed, descs.iter().map(|d| d.2).collect::<Vec<_>>())));
             }
         }
     }
@@ -749,10 +762,40 @@ pub fn gen_c20(rng: &mut Rng, tier: Tier) -> Value {
             }
         }
     }
+    let mut units2 = serde_json::Map::new();
+    // a few runs: one histogram key sees well over a hundred distinct buckets within one interval
+    if let (Some(hk), true) = (keys.iter().position(|k| js(k, "kind", "") == "h"), rng.chance(0.04)) {
+        let mut all: Vec<u64> = vec![];
+        for p in 5..32u64 {
+            for sub in 0..16u64 {
+                all.push((1u64 << p) + sub * (1u64 << (p - 4)));
+            }
+        }
+        rng.shuffle(&mut all);
+        let n = 105 + rng.usize_below(160);
+        let ti = rng.usize_below(threads.len());
+        for v in all.into_iter().take(n) {
+            threads[ti].push(json!({"op":"rec","key":hk,"v":v as f64,"fresh":false}));
+        }
+    }
     for n in describe_later {
         let ti = rng.usize_below(threads.len());
         let at = rng.usize_below(threads[ti].len() + 1);
-        threads[ti].insert(at, json!({"op":"describe","name":n}));
+        threads[ti].insert(at, json!({"op":"describe","name":n,"which":1}));
+        if rng.chance(0.3) {
+            // described again, with another unit, later in the same thread
+            units2.insert(n.clone(), json!(UNITS[rng.usize_below(UNITS.len())].0));
+            let at2 = at + 1 + rng.usize_below(threads[ti].len() - at);
+            threads[ti].insert(at2, json!({"op":"describe","name":n,"which":2}));
+        }
+    }
+    for d in &describe_first {
+        if let (Some(n), true) = (d.as_str(), rng.chance(0.3)) {
+            units2.insert(n.to_string(), json!(UNITS[rng.usize_below(UNITS.len())].0));
+            let ti = rng.usize_below(threads.len());
+            let at = rng.usize_below(threads[ti].len() + 1);
+            threads[ti].insert(at, json!({"op":"describe","name":n,"which":2}));
+        }
     }
     let mut reporter: Vec<Value> = vec![];
     let nr = rng.below(if tier == Tier::Thorough { 6 } else { 4 });
@@ -767,7 +810,7 @@ pub fn gen_c20(rng: &mut Rng, tier: Tier) -> Value {
     let est = 40 + 12 * threads.iter().map(|t| t.len() as u64).sum::<u64>() + 10 * nr * keys.len() as u64;
     let sched = gen_sched(rng, &SchedOpts { est_choices: est, threads: nthreads + 1, jump_max_ns: 0, stall_clock_max_ns: 0, max_steps: 40_000 });
     json!({
-        "sched": sched, "emit_zero": rng.chance(0.4), "via_local": rng.chance(0.3), "keys": keys, "units": units,
+        "sched": sched, "emit_zero": rng.chance(0.4), "via_local": rng.chance(0.3), "keys": keys, "units": units, "units2": units2,
         "describe_first": describe_first, "threads": threads, "reporter": reporter, "second_final": rng.chance(0.3),
     })
 }
@@ -914,6 +957,19 @@ impl metrique_writer::AnyEntrySink for ReadoutSink {
     }
 }
 
+/// The "join handle" half of `metrics_sink((sink, handle))`: the reporter drops it (on tokio's
+/// blocking pool, a real thread outside the simulator) to shut the sink down, which must happen
+/// after the final readout has been appended.
+struct ShutdownProbe {
+    appended: Arc<std::sync::atomic::AtomicU64>,
+    at_drop: Arc<std::sync::atomic::AtomicU64>,
+}
+impl Drop for ShutdownProbe {
+    fn drop(&mut self) {
+        self.at_drop.store(self.appended.load(Ordering::SeqCst), Ordering::SeqCst);
+    }
+}
+
 fn reporter_main(plan: &Value, log: BLog) {
     let wall_ns = 1_700_000_000_000_000_000i64 + ji(plan, "wall_off", 0);
     let wall = Arc::new(AtomicI64::new(wall_ns));
@@ -924,18 +980,24 @@ fn reporter_main(plan: &Value, log: BLog) {
     let keys = keys_of(plan);
     rt.block_on(async {
         let l2 = log.clone();
-        let (reporter, rec) = metrique_metricsrs::MetricReporter::builder()
+        let at_drop = Arc::new(std::sync::atomic::AtomicU64::new(u64::MAX));
+        let sync_handle = jb(plan, "sync_handle", false);
+        let b = metrique_metricsrs::MetricReporter::builder()
             .emit_zero_counters(jb(plan, "emit_zero", false))
             .metrics_publish_interval(interval)
-            .metrics_rs_version::<dyn metrics::Recorder>()
-            .metrics_sink_async_shutdown(sink.clone(), async move {
+            .metrics_rs_version::<dyn metrics::Recorder>();
+        let (reporter, rec) = if sync_handle {
+            b.metrics_sink((sink.clone(), ShutdownProbe { appended: sink.n.clone(), at_drop: at_drop.clone() })).build_without_installing()
+        } else {
+            b.metrics_sink_async_shutdown(sink.clone(), async move {
                 l2.log(BK::Note("sink_shutdown"));
             })
-            .build_without_installing();
+            .build_without_installing()
+        };
         log.log(BK::ReadBegin { rid: 1, wall_ns });
         for d in ja(plan, "describe_first") {
             if let Some(n) = d.as_str() {
-                describe(&rec, &log, plan, n);
+                describe(&rec, &log, plan, n, 1);
             }
         }
         // every key exists before the reporter task can run (see RegistryGate: creation must not
@@ -968,6 +1030,10 @@ fn reporter_main(plan: &Value, log: BLog) {
             reporter.flush().await;
         }
         reporter.shutdown().await;
+        if sync_handle {
+            log.log(BK::ShutdownProbe { at_drop: at_drop.load(Ordering::SeqCst), total: sink.n.load(Ordering::SeqCst) });
+            log.log(BK::Note("sink_shutdown"));
+        }
         log.log(BK::Note("shutdown_returned"));
     });
 }
@@ -991,6 +1057,7 @@ pub fn gen_c20_reporter(rng: &mut Rng, tier: Tier) -> Value {
     plan["interval_ms"] = json!(interval_ms);
     plan["wall_off"] = json!(rng.below(1_000_000_000_000));
     plan["flush_before_shutdown"] = json!(rng.chance(0.3));
+    plan["sync_handle"] = json!(rng.chance(0.4));
     plan.as_object_mut().unwrap().remove("reporter");
     plan
 }
@@ -1037,6 +1104,14 @@ impl Scenario for BridgeReporter {
         if !matches!(failure, Some(detsim::Failure::StepLimit { .. })) {
             r.violation = check_c20(plan, &h);
         }
+        if r.violation.is_none() {
+            if let Some((at_drop, total)) = h.iter().find_map(|e| if let BK::ShutdownProbe { at_drop, total } = &e.k { Some((*at_drop, *total)) } else { None }) {
+                r.probe("sync_shutdown_handle", 1);
+                if at_drop != total {
+                    r.violation = Some(Violation::new("shutdown_before_final_readout", if at_drop == u64::MAX { "MetricReporter::shutdown returned but the sink's shutdown handle was never dropped".to_string() } else { format!("the sink's shutdown handle was dropped when {at_drop} readouts had been appended, but {total} were appended in all: the sink was being shut down before the final readout reached it") }));
+                }
+            }
+        }
         if r.violation.is_none() && failure.is_none() && mp.is_none() {
             let joined = h.iter().find(|e| matches!(e.k, BK::Note("all_joined"))).map(|e| e.seq);
             let shut = h.iter().find(|e| matches!(e.k, BK::Note("sink_shutdown"))).map(|e| e.seq);
@@ -1068,7 +1143,7 @@ impl Scenario for BridgeReporter {
         r
     }
     fn probes(&self) -> Vec<&'static str> {
-        vec!["increment_during_readout", "record_during_readout", "gauge_update_during_readout", "periodic_readout_by_real_reporter_task"]
+        vec!["increment_during_readout", "record_during_readout", "gauge_update_during_readout", "periodic_readout_by_real_reporter_task", "sync_shutdown_handle"]
     }
     fn components(&self) -> Value {
         json!({
